@@ -19,6 +19,7 @@ type generator struct {
 	height uint32
 	time   uint32
 	o      *obs
+	split  bool // C10: start after seven epochs, set fee percentages now and then
 }
 
 const (
@@ -126,6 +127,13 @@ func (g *generator) next() op {
 	auth := firstAuth + g.rnd(3)
 	if g.rnd(10) == 0 {
 		auth = genesisOwnerA + g.rnd(outsider-genesisOwnerA+1) // owners and the outsider authorize too
+	}
+	if g.split && g.rnd(9) == 0 && len(g.o.Pool) > 0 {
+		p := g.o.Pool[g.rnd(len(g.o.Pool))]
+		if g.rnd(2) == 0 {
+			return op{Kind: "peercost", Signer: p.Owner, Addr: p.Owner, Peer: p.Peer, Amount: uint32(g.rnd(103))}
+		}
+		return op{Kind: "feepct", Signer: p.Owner, Addr: p.Owner, Peer: p.Peer, Amount: uint32(g.rnd(103)), Pos: []uint32{uint32(g.rnd(103))}}
 	}
 	k := g.rnd(100)
 	switch {
@@ -357,6 +365,11 @@ func (g *generator) generate() *history {
 			g.push(op{Kind: "maxauth", Signer: p.Owner, Addr: p.Owner, Peer: p.Peer, Amount: uint32(uint64(1+g.rnd(20)) * p.Init)})
 		}
 	}
+	if g.split {
+		for i := 0; i < 7; i++ {
+			g.push(op{Kind: "commit", Signer: idAdmin})
+		}
+	}
 	n := 30 + g.rnd(30)
 	for i := 0; i < n; i++ {
 		if g.regime == "approve" {
@@ -428,7 +441,7 @@ func probes() []*history {
 		op{Kind: "authorize", Signer: 9, Addr: 9, Peers: []int{7}, Pos: []uint32{1500}},
 		op{Kind: "commit", Signer: 1},
 		op{Kind: "unauthorize", Signer: 9, Addr: 9, Peers: []int{7}, Pos: []uint32{500}},
-		op{Kind: "black", Signer: 1, Peers: []int{7}}, // consensus node: commits at once
+		op{Kind: "black", Signer: 1, Peers: []int{7}},                    // consensus node: commits at once
 		op{Kind: "register", Signer: 4, Addr: 4, Peer: 7, Amount: 20000}, // black-listed
 		op{Kind: "withdraw", Signer: 8, Addr: 8, Peers: []int{7}, Pos: []uint32{9500}},
 		op{Kind: "withdraw", Signer: 9, Addr: 9, Peers: []int{7}, Pos: []uint32{1425}},
@@ -442,7 +455,7 @@ func probes() []*history {
 		op{Kind: "register", Signer: 6, Addr: 6, Peer: 9, Amount: 12000},
 		op{Kind: "register", Signer: 7, Addr: 7, Peer: 10, Amount: 9000},
 		op{Kind: "authorize", Signer: 8, Addr: 8, Peers: []int{8}, Pos: []uint32{500}}, // not approved yet
-		op{Kind: "approve", Signer: 1, Peer: 10},                                        // below MinInitStake
+		op{Kind: "approve", Signer: 1, Peer: 10},                                       // below MinInitStake
 		op{Kind: "approve", Signer: 1, Peer: 8},
 		op{Kind: "reject", Signer: 1, Peer: 9},
 		op{Kind: "unregister", Signer: 7, Addr: 7, Peer: 10},
